@@ -583,3 +583,113 @@ _run_c16c = run
 def run(ctx):
     _run_c16c(ctx)
     ctx.guard(r16_8)
+
+
+# ------------------------------------------------------------------------------------------------ R16.9
+def r16_9(ctx):
+    """The interfaces of the SDE that check_contract hands to the solver describe ONE drift and ONE diffusion.
+
+    The user's class offers the parts (f, g, possibly other drifts such as a prior `h`) and, for speed, combined methods
+    under the default names (f_and_g, g_prod, f_and_g_prod) written in terms of its f and g.  A name map replaces a part
+    (`names={'drift': 'h'}`: sample from the prior).  Solvers read different interfaces -- Euler `f_and_g_prod`,
+    Milstein `f` and `g_prod_and_gdg_prod`, SRK `f` and `g` -- so whichever interface is asked, the drift must be the
+    drift named by the map and the diffusion the diffusion named by the map; a combined method that still describes the
+    replaced part makes the solution depend on the solver."""
+    from . import c19
+    rep, model = ctx.rep, ctx.model
+    rep.rule("R16.9", "after renaming through check_contract every interface of the resulting SDE (f, g, f_and_g, g_prod, "
+                      "f_and_g_prod) evaluates the drift and the diffusion the name map designates, also when the user's "
+                      "class carries combined methods under the default names")
+    cc = model.func(SDEINT, "check_contract")
+    rep.analysed(cc)
+    B, d = 4, 3
+    mode = {"sym": False}
+
+    def part(sym):
+        return lambda it, a, k, n, f: nf.sym(sym) if mode["sym"] else c19.TObj((B, d), sym)
+
+    def user_sde(parts, combined):
+        """parts: {method name: symbol}; combined: {method name: (drift symbol, diffusion symbol)} for fused methods."""
+        attrs = {"noise_type": "diagonal", "sde_type": "ito"}
+        for name, sym in parts.items():
+            attrs[name] = Intrinsic(f"user.{name}", part(sym))
+        for name, (fs, gs) in combined.items():
+            def fused(it, a, k, n, f, name=name, fs=fs, gs=gs):
+                if not mode["sym"]:
+                    return (c19.TObj((B, d), fs), c19.TObj((B, d), gs)) if fs else c19.TObj((B, d), gs)
+                g = nf.sym(gs)
+                if name.endswith("prod"):
+                    g = g * a[2]
+                return (nf.sym(fs), g) if fs else g
+            attrs[name] = Intrinsic(f"user.{name}", fused)
+        return Obj("user-sde", attrs=attrs)
+
+    class H(c19.ContractHooks):
+        def external_call(self, interp, dotted, args, kwargs, node, fi):
+            if dotted == "copy.copy" and args and isinstance(args[0], Obj):
+                src = args[0]
+                return Obj(src.name + "-copy", cls=src.cls, attrs=dict(src.attrs), getattr_hook=src.getattr_hook,
+                           call_hook=src.call_hook, getitem_hook=src.getitem_hook)
+            return c19.ContractHooks.external_call(self, interp, dotted, args, kwargs, node, fi)
+
+    all_combined = {"f_and_g": ("F", "G"), "g_prod": (None, "G"), "f_and_g_prod": ("F", "G")}
+    scenarios = [
+        # (label, parts, combined methods of the class, name map, designated drift, designated diffusion)
+        ("prior-drift-with-fused-f_and_g", {"f": "F", "g": "G", "h": "H"}, {"f_and_g": ("F", "G")}, {"drift": "h"}, "H", "G"),
+        ("prior-drift-with-fused-f_and_g_prod", {"f": "F", "g": "G", "h": "H"}, {"f_and_g_prod": ("F", "G")}, {"drift": "h"}, "H", "G"),
+        ("prior-drift-all-fused", {"f": "F", "g": "G", "h": "H"}, all_combined, {"drift": "h"}, "H", "G"),
+        ("other-diffusion-with-g_prod", {"f": "F", "g": "G", "sigma": "S"}, {"g_prod": (None, "G")}, {"diffusion": "sigma"}, "F", "S"),
+        ("other-diffusion-all-fused", {"f": "F", "g": "G", "sigma": "S"}, all_combined, {"diffusion": "sigma"}, "F", "S"),
+        ("both-renamed-all-fused", {"f": "F", "g": "G", "mu": "MU", "sigma": "S"}, all_combined,
+         {"drift": "mu", "diffusion": "sigma"}, "MU", "S"),
+        # the combined method is renamed along with the parts: it is the user's statement of the same SDE
+        ("fused-renamed-too", {"f": "F", "g": "G", "h": "H"}, {"f_and_g": ("F", "G"), "h_and_g": ("H", "G")},
+         {"drift": "h", "drift_and_diffusion": "h_and_g"}, "H", "G"),
+        # no renaming of a part: combined methods under the default names are used as they are
+        ("no-rename-all-fused", {"f": "F", "g": "G", "h": "H"}, all_combined, {"prior_drift": "h"}, "F", "G"),
+    ]
+    for label, parts, combined, names, want_f, want_g in scenarios:
+        mode["sym"] = False
+        user = user_sde(parts, combined)
+        it = Interp(model, H())
+        construct = f"{cc.key}::R16.9::{label}"
+        try:
+            out = it.call_function(cc, [user, c19.TObj((B, d), "y0"), [Fraction(0), Fraction(1)],
+                                        Obj("bm", attrs={"shape": (Fraction(B), Fraction(d)), "levy_area_approximation": "none"}),
+                                        "euler", False, None, dict(names), False], {})
+        except SimRaise as e:
+            rep.fail("R16.9", astq.loc(cc), construct,
+                     f"names={names} on a class with methods {sorted(parts) + sorted(combined)}: check_contract raises "
+                     f"{e.exc_name} ({str(e.message)[:80]}) although the parts the map designates are all there")
+            continue
+        sde = out[0]
+        mode["sym"] = True
+        t, y, v = nf.sym("t", True), nf.sym("y"), nf.sym("v")
+        F, G = nf.sym(want_f), nf.sym(want_g)
+        want = {"f": F, "g": G, "f_and_g": (F, G), "g_prod": G * v, "f_and_g_prod": (F, G * v)}
+        bad = []
+        for slot, w in want.items():
+            args = [t, y, v] if slot.endswith("prod") else [t, y]
+            try:
+                got = it.call(it.getattr(sde, slot), args, {})
+            except (SimRaise, AnalysisError) as e:
+                bad.append(f"`{slot}` -> {e}")
+                continue
+            got_t = tuple(got) if isinstance(got, (tuple, list)) else (got,)
+            w_t = w if isinstance(w, tuple) else (w,)
+            same = len(got_t) == len(w_t) and all(isinstance(a, Rat) and nf.equal(a, b) for a, b in zip(got_t, w_t))
+            if not same:
+                bad.append(f"`{slot}` evaluates `{got}` where the map designates `{w}`")
+        rep.check(not bad, "R16.9", astq.loc(cc), construct,
+                  f"names={names} on a class with methods {sorted(parts) + sorted(combined)}: {'; '.join(bad)}: solvers "
+                  f"that read this interface integrate another SDE than solvers that read the parts, without any error",
+                  "every interface evaluates the designated drift and diffusion")
+    ctx.floor("R16.9", 8)
+
+
+_run_c16d = run
+
+
+def run(ctx):
+    _run_c16d(ctx)
+    ctx.guard(r16_9)
